@@ -11,6 +11,11 @@ R04b once / re-arm: the Watch body is post-dominated by node.completed = True (t
 R04c block end aborts interrupts: every `X.block_ended = True` is followed on all paths by
      _abort_block_interrupts(X), which marks children_complete and unregisters every interrupt whose
      node is a descendant of the block.
+R04d second line of defence: an interrupt aborted in this tick is still resumed once (the tick iterates a copy of the
+     interrupt list) and an Alarm re-arms itself when resumed, so nothing inside an ended block may start: in
+     PInterpreter._visit_children every `self.visit(child)` is dominated by the false outcome of
+     `self._is_in_ended_block(child)` itself (a conjunction with another condition does not establish it), for the
+     main flow and for interrupts alike.
 Decides these orderings; tick-exact interleaving of condition, cancel, force and End block is not decided.
 """
 from __future__ import annotations
@@ -170,3 +175,23 @@ def run(ctx) -> None:
     else:
         ctx.fail("R04c", ab, ab.node, "_abort_block_interrupts: descendants' interrupts marked children_complete and unregistered",
                  "interrupts of the ended block are not fully aborted")
+
+    # ---- R04d
+    ctx.rule("R04d", "no child of an ended block is visited (main flow and interrupts)")
+    vc = pi.methods.get("_visit_children")
+    ctx.analysed(vc)
+    gv = cfg_of(vc)
+    visits = [n for n in gv.nodes if any(call_attr(c) == "visit" and norm(c.func) == "self.visit" for c in n.calls())]
+    if not visits:
+        raise AnchorError("_visit_children: self.visit(child) not found")
+    for n in visits:
+        call = next(c for c in n.calls() if call_attr(c) == "visit")
+        child = norm(call.args[0]) if call.args else "?"
+        inst = f"_visit_children: self.visit({child}) only when the child is not in an ended block"
+        facts = facts_at(gv, n)
+        if (f"self._is_in_ended_block({child})", False) in facts:
+            ctx.ok("R04d", inst)
+        else:
+            ctx.fail("R04d", vc, n.ast, inst, "a child can be visited although it lies in a block that has ended (the ended-block test is "
+                     "missing or weakened by a further condition): an Alarm that was aborted in this tick is resumed once more, "
+                     "re-arms itself and its body runs after the block has ended")
